@@ -1,8 +1,9 @@
 ----------------------------- MODULE MC_ListFile -----------------------------
 (* ParseList(Render(names, style)) = names for every rendering style and every list of <= 3 names of <= 2 characters over
-   {x, '.', space (inside a name only)} that neither start nor end with white space. *)
+   {x, '.', space, form feed, U+2028 (inside a name only)} that neither start nor end with white space. *)
 EXTENDS ListFile
-Alpha == {120, 46, 32}
+\* form feed and the Unicode line separator are ordinary characters INSIDE a name (only LF and CR end a line)
+Alpha == {120, 46, 32, 12, 8232}
 Names == { s \in UNION { [1..n -> Alpha] : n \in 1..3 } : ~IsWs(s[1]) /\ ~IsWs(s[Len(s)]) }
 Lists == UNION { [1..n -> Names] : n \in 0..2 }
 ASSUME \A l \in Lists, st \in Styles : ParseList(Render(l, st)) = l
